@@ -436,6 +436,45 @@ def rty(orig, rule):
     return 'let %s%s: %s = %s;' % (m.group(1) or '', m.group(2), ty, m.group(3))
 
 
+def r29(orig, rule):
+    # (A..B).step_by(S).for_each(|X| { BODY });  ->  { let mut X: usize = A; while X < B { BODY X += S; } }
+    #   (the closure body runs for X = A, A+S, ... below B; side condition X + S does not overflow - a proof obligation of the loop)
+    s = norm(orig)
+    m = _m(r'\( (.+?) \.\. (.+?) \) \. step_by \( (.+?) \) \. for_each \( \| (%s) \| \{ (.*) \} \) ;' % ID, s)
+    a, b, st, x, body = m.groups()
+    return '{ let mut %s: usize = %s; while %s < %s { %s %s += %s; } }' % (x, a, x, b, body, x, st)
+
+
+def r30(orig, rule):
+    # for X in (A..B).step_by(S) {  ->  { let mut X = A; while X < B {        (closed by R30t X S)
+    s = norm(orig)
+    m = _m(r'for (%s) in \( (.+?) \.\. (.+?) \) \. step_by \( (.+?) \) \{' % ID, s)
+    x, a, b, st = m.groups()
+    return '{ let mut %s = %s; while %s < %s {' % (x, a, x, b)
+
+
+def r30t(orig, rule):
+    _m(r'\}', norm(orig))
+    x, st = rule.split()[1], rule.split()[2]
+    return '%s += %s; } }' % (x, st)
+
+
+def r28(orig, rule):
+    # for (I, X) in A.iter().enumerate().take(HI).skip(LO) {  ->  for I in LO..HI { let X = &A[I];
+    #   (side condition HI <= A.len(): the indexing A[I] is then in bounds for every I < HI - a proof obligation)
+    s = norm(orig)
+    m = _m(r'for \( (%s) , (%s) \) in (%s) \. iter \( \) \. enumerate \( \) \. take \( (.+?) \) \. skip \( (.+?) \) \{' % (ID, ID, ID), s)
+    i, x, a, hi, lo = m.groups()
+    return 'for %s in %s..%s { let %s = &%s[%s];' % (i, lo, hi, x, a, i)
+
+
+def rpanic(orig, rule):
+    # if !COND { panic!(MSG) }  ->  assert!(COND);      (same panic condition; the message is dropped)
+    s = norm(orig)
+    m = _m(r'if ! (.+?) \{ panic ! \( .* \)(?: ;)? \}', s)
+    return 'assert!(%s);' % m.group(1)
+
+
 def r1b(orig, rule):
     # for (I, X) in E.iter().enumerate() {   ->  for I in 0..E.len() { let X = &E[I];      (X bound to a reference, as the iterator yields)
     s = norm(orig)
@@ -453,7 +492,7 @@ def r1t(orig, rule):
 
 
 GENERATORS = {
-    'R1b': r1b, 'R1t': r1t, 'R22': r22, 'R23': r23, 'R24': r24, 'R18m': r18m, 'RRET': rret, 'R26': r26, 'R18a': r18a, 'RTY': rty,
+    'R1b': r1b, 'R1t': r1t, 'R22': r22, 'R23': r23, 'R24': r24, 'R18m': r18m, 'RRET': rret, 'R26': r26, 'R18a': r18a, 'RTY': rty, 'R29': r29, 'R30': r30, 'R30t': r30t, 'R28': r28, 'RPANIC': rpanic,
     'RBW': rbw,
     'R4m': r4m,
     'R12m': r12m,
